@@ -20,6 +20,7 @@ import (
 	"encoding/json"
 	"fmt"
 	"math/big"
+	"os"
 	"strings"
 	"testing"
 	"time"
@@ -48,6 +49,7 @@ type Case struct {
 	Tickets    string   `json:"tickets"`     // "none": no client cache; "on"; "server-off": server SessionTicketsDisabled
 	ForceTkt   bool     `json:"force_tkt"`   // Config.ForceSessionTicketExt
 	Resume     bool     `json:"resume"`      // run a second handshake on the same cache and check its log too
+	Rotate     bool     `json:"rotate"`      // rotate the server's ticket key before the second handshake (the server then re-issues a ticket while resuming)
 	ClientCert bool     `json:"client_cert"` // server requests, client sends a certificate
 	ServerRand []byte   `json:"server_rand"` // Config.ServerRandom (32 bytes or empty)
 	Mode       string   `json:"mode"`        // "default" | "fingerprint" | "external"
@@ -63,6 +65,8 @@ type Case struct {
 }
 
 const host = "example.test"
+
+var debugFail = os.Getenv("C28_DEBUG") != ""
 
 // ---------------------------------------------------------------------------
 
@@ -128,6 +132,9 @@ func (c Case) serverConfig() *tls.Config {
 	if c.ClientCert {
 		cfg.ClientAuth = tls.RequireAnyClientCert
 	}
+	if c.Rotate {
+		cfg.SetSessionTicketKeys([][32]byte{{1, 1, 1}})
+	}
 	return cfg
 }
 
@@ -141,8 +148,12 @@ func (c Case) clientSuites() []uint16 {
 func (c Case) clientConfig(cache tls.ClientSessionCache) *tls.Config {
 	id := tlskit.NewIdentity(keys.ByName(c.Key), host)
 	cfg := &tls.Config{Time: tlskit.Now, RootCAs: id.Roots, ServerName: host, MinVersion: tls.VersionTLS10, MaxVersion: c.Version,
-		NextProtos: c.ClientALPN, ForceSessionTicketExt: c.ForceTkt, ForceSuites: true}
-	cfg.CipherSuites = c.clientSuites()
+		NextProtos: c.ClientALPN, ForceSessionTicketExt: c.ForceTkt}
+	if c.Version < tls.VersionTLS13 {
+		// ForceSuites: makeClientHello otherwise drops implemented DHE_RSA / *_SHA256 suites (C24's subject)
+		cfg.ForceSuites = true
+		cfg.CipherSuites = c.clientSuites()
+	}
 	if c.Curve != 0 {
 		cfg.CurvePreferences = []tls.CurveID{tls.CurveID(c.Curve)}
 	}
@@ -253,24 +264,65 @@ func (c Case) externalHello() []byte {
 	return tlswire.EncClientHello(c.Version, random, c.HSession, c.clientSuites(), []uint8{0}, ext, true)
 }
 
+// both runs the two handshakes concurrently with panic containment
+// (tlskit.Handshake has none inside its goroutines) and a time limit.
+func both(cli, srv *tls.Conn, p *tlskit.Proxy, limit time.Duration) (res tlskit.Result, cg, sg kit.GuardResult) {
+	done := make(chan struct{}, 2)
+	go func() {
+		cg = kit.GuardInline(func() { res.ClientErr = cli.Handshake() })
+		if cg.Panicked {
+			p.Client.Close() // the Conn may still hold its handshake mutex
+		} else if res.ClientErr != nil {
+			cli.Close()
+		}
+		done <- struct{}{}
+	}()
+	go func() {
+		sg = kit.GuardInline(func() { res.ServerErr = srv.Handshake() })
+		if sg.Panicked {
+			p.Server.Close()
+		} else if res.ServerErr != nil {
+			srv.Close()
+		}
+		done <- struct{}{}
+	}()
+	timer := time.After(limit)
+	for i := 0; i < 2; i++ {
+		select {
+		case <-done:
+		case <-timer:
+			res.TimedOut = true
+			p.Client.Close()
+			p.Server.Close()
+			for ; i < 2; i++ {
+				<-done
+			}
+			return
+		}
+	}
+	return
+}
+
 // handshake runs one client<->server handshake through the recording proxy.
 func handshake(r *kit.R, cliCfg, srvCfg *tls.Config) (*run, tlskit.Result) {
 	p := tlskit.NewProxy(nil)
 	cli := tls.Client(p.Client, cliCfg)
 	srv := tls.Server(p.Server, srvCfg)
-	var res tlskit.Result
-	g := kit.Guard(func() { res = tlskit.Handshake(cli, srv, 10*time.Second) })
-	if g.Panicked || g.TimedOut {
-		cli.Close()
-		srv.Close()
-	}
-	if g.Panicked && cliCfg.ExternalClientHello != nil && cliCfg.ClientSessionCache != nil && strings.HasSuffix(g.Site, "loadSession") {
+	res, cg, sg := both(cli, srv, p, 15*time.Second)
+	if cg.Panicked && cliCfg.ExternalClientHello != nil && cliCfg.ClientSessionCache != nil && strings.HasSuffix(cg.Site, "loadSession") {
+		p.Client.Close()
+		p.Server.Close()
 		if !r.Known(keyExtNoSupVer) {
-			r.Failf(keyExtNoSupVer, "Config{ExternalClientHello (without supported_versions), ClientSessionCache}: Handshake panics in loadSession (hello.supportedVersions[0]): %v\n%s", g.PanicVal, g.Stack)
+			r.Failf(keyExtNoSupVer, "Config{ExternalClientHello (without supported_versions), ClientSessionCache}: Handshake panics in loadSession (hello.supportedVersions[0]): %v\n%s", cg.PanicVal, cg.Stack)
 		}
 		r.Skip()
 	}
-	r.Must(g, "handshake")
+	if cg.Panicked || sg.Panicked {
+		p.Client.Close()
+		p.Server.Close()
+	}
+	r.Must(cg, "client handshake")
+	r.Must(sg, "server handshake")
 	out := &run{log: cli.GetHandshakeLog(), srvLog: srv.GetHandshakeLog()}
 	if res.ClientErr == nil && res.ServerErr == nil && !res.TimedOut {
 		out.resumed = cli.ConnectionState().DidResume
@@ -297,11 +349,17 @@ func check(c Case, r *kit.R) {
 	if first.w == nil {
 		r.Class("handshake-failed")
 		r.Class(fmt.Sprintf("handshake-failed:%s", shortErr(res)))
+		if debugFail {
+			r.Class(fmt.Sprintf("F v=%04x suite=%04x key=%s sig=%04x curve=%d mode=%s cc=%v", c.Version, c.Suite, c.Key, c.ServerSig, c.Curve, c.Mode, c.ClientCert))
+		}
 		r.Skip() // which configurations interoperate is C24's subject
 	}
 	v := &verifier{c: c, r: r, run: first}
 	v.all()
 	if c.Resume && c.Tickets != "none" && c.Mode == "default" {
+		if c.Rotate {
+			srvCfg.SetSessionTicketKeys([][32]byte{{2, 2, 2}, {1, 1, 1}})
+		}
 		second, res := handshake(r, c.clientConfig(cache), srvCfg)
 		if second.w == nil {
 			r.Class("second-handshake-failed:" + shortErr(res))
@@ -309,6 +367,9 @@ func check(c Case, r *kit.R) {
 		}
 		v2 := &verifier{c: c, r: r, run: second, second: true, prev: first}
 		v2.all()
+		if second.resumed && second.w.sf.Find(tlswire.HsNewSessionTicket) != nil {
+			r.Class("resumed-with-new-ticket")
+		}
 		if second.resumed {
 			r.Class("resumed")
 			r.NonTrivial()
@@ -423,6 +484,12 @@ func (v *verifier) all() {
 	resumedOnWire := w.sf.Find(tlswire.HsCertificate) == nil
 	if resumedOnWire != v.run.resumed {
 		v.failf("C28:harness", "resumption on the wire %v, ConnectionState.DidResume %v", resumedOnWire, v.run.resumed)
+	}
+	if w.sf.Find(tlswire.HsCertificateStatus) != nil {
+		v.r.Class("ocsp-stapled")
+	}
+	if w.sf.Find(tlswire.HsCertificateRequest) != nil {
+		v.r.Class("client-cert-requested")
 	}
 	if !resumedOnWire {
 		v.certificates()
@@ -655,7 +722,7 @@ func (v *verifier) clientHello() {
 		case st.Length != 0 && st.Length != len(d):
 			f("session-ticket-length", st.Length, len(d))
 		case st.Length != len(st.Value):
-			v.known(keyCHTicket, "log.ClientHello.SessionTicket has Length %d but Value holds %d bytes; the ticket sent on the wire is %x: the logged byte string is not complete", st.Length, len(st.Value), d)
+			v.known(keyCHTicket, "log.ClientHello.SessionTicket has Length %d but Value holds %d bytes; the ticket sent on the wire is %.32x...: the logged byte string is not complete", st.Length, len(st.Value), d)
 		}
 	}
 	if len(l.SignatureAndHashes) > 0 {
@@ -1344,6 +1411,7 @@ func gen(t *rapid.T) Case {
 	c.Tickets = rapid.SampledFrom([]string{"on", "on", "on", "none", "server-off"}).Draw(t, "tickets")
 	c.ForceTkt = rapid.IntRange(0, 3).Draw(t, "force-ticket") == 0
 	c.Resume = rapid.IntRange(0, 2).Draw(t, "resume") == 0
+	c.Rotate = c.Resume && rapid.Bool().Draw(t, "rotate")
 	c.ClientCert = rapid.IntRange(0, 5).Draw(t, "client-cert") == 0
 	if rapid.IntRange(0, 3).Draw(t, "server-random") == 0 {
 		c.ServerRand = rapid.SliceOfN(rapid.Byte(), 32, 32).Draw(t, "server-rand")
@@ -1361,14 +1429,23 @@ func gen(t *rapid.T) Case {
 		if c.HHasTkt && rapid.Bool().Draw(t, "h-ticket-nonempty") {
 			c.HTicket = rapid.SliceOfN(rapid.Byte(), 1, 80).Draw(t, "h-ticket")
 		}
+		c.ServerSig = 0
 		if c.Version == 0x0303 {
-			if kind == "rsa" {
-				c.HSigAlgs = rapid.SliceOfNDistinct(rapid.SampledFrom(legacyRSA), 0, 5, rapid.ID[uint16]).Draw(t, "h-sigalgs")
+			switch {
+			case kind == "rsa":
+				// at least one PKCS#1 scheme the server can sign with (fingerprints cannot name PSS or ECDSA)
+				c.HSigAlgs = append(rapid.SliceOfNDistinct(rapid.SampledFrom(legacyRSA), 0, 4, rapid.ID[uint16]).Draw(t, "h-sigalgs"),
+					rapid.SampledFrom([]uint16{0x0401, 0x0501, 0x0601, 0x0201}).Draw(t, "h-sigalg-usable"))
 				if c.Mode == "external" && rapid.Bool().Draw(t, "h-sigalgs-modern") {
 					c.HSigAlgs = append([]uint16{0x0804, 0x0807, 0x0403}, c.HSigAlgs...)
 				}
-			} else if c.Mode == "external" {
-				c.HSigAlgs = rapid.SliceOfNDistinct(rapid.SampledFrom([]uint16{0x0403, 0x0503, 0x0603, 0x0203, 0x0807, 0x0401, 0x0804}), 0, 5, rapid.ID[uint16]).Draw(t, "h-sigalgs-ec")
+			case kind == "ec":
+				c.Mode = "external"
+				c.HSigAlgs = append(rapid.SliceOfNDistinct(rapid.SampledFrom([]uint16{0x0807, 0x0401, 0x0804, 0x0402}), 0, 3, rapid.ID[uint16]).Draw(t, "h-sigalgs-ec"),
+					rapid.SampledFrom([]uint16{0x0403, 0x0503, 0x0603, 0x0203}).Draw(t, "h-sigalg-usable"))
+			default:
+				c.Mode = "external"
+				c.HSigAlgs = append(rapid.SliceOfNDistinct(rapid.SampledFrom([]uint16{0x0403, 0x0401, 0x0804}), 0, 3, rapid.ID[uint16]).Draw(t, "h-sigalgs-ed"), 0x0807)
 			}
 		}
 		c.HOrder = rapid.Permutation([]string{"sni", "alpn", "status", "sct", "ems", "reneg", "ticket"}).Draw(t, "h-order")
@@ -1379,10 +1456,10 @@ func gen(t *rapid.T) Case {
 	return c
 }
 
-const rule = "zcrypto client <-> zcrypto server handshakes through a recording proxy: TLS 1.0-1.3, RSA 1024/2048/3072, ECDSA P-256/384/521 and Ed25519 server keys, all 31 implemented TLS<=1.2 suites (RSA, DHE_RSA, ECDHE_RSA, ECDHE_ECDSA x RC4/3DES/AES-CBC/AES-GCM/ChaCha20), curve X25519/P-256/P-384/P-521 or default, ALPN lists, OCSP staple, SCT lists, leaf or leaf+CA chain, restricted server signature scheme (PSS/PKCS1/ECDSA x SHA-1..SHA-512), tickets on/off/server-off, ForceSessionTicketExt, client certificate, explicit ServerRandom, optional second (resumed) handshake on the same session cache; client hello from the default path, from a ClientFingerprintConfiguration (explicit random, session id, bogus ticket, legacy signature algorithms, permuted optional extensions) or from ExternalClientHello bytes. Failed handshakes are skipped. Non-trivial: TLS 1.2 ECDHE full handshake (carries a signature algorithm), a ClientHello that carries a ticket, or a resumed second handshake; distinct by case hash"
+const rule = "zcrypto client <-> zcrypto server handshakes through a recording proxy: TLS 1.0-1.3, RSA 1024/2048/3072, ECDSA P-256/384/521 and Ed25519 server keys, all 31 implemented TLS<=1.2 suites (RSA, DHE_RSA, ECDHE_RSA, ECDHE_ECDSA x RC4/3DES/AES-CBC/AES-GCM/ChaCha20), curve X25519/P-256/P-384/P-521 or default, ALPN lists, OCSP staple, SCT lists, leaf or leaf+CA chain, restricted server signature scheme (PSS/PKCS1/ECDSA x SHA-1..SHA-512), tickets on/off/server-off, ForceSessionTicketExt, client certificate, explicit ServerRandom, optional second (resumed) handshake on the same session cache, with or without a rotated server ticket key (ticket re-issued while resuming); client hello from the default path, from a ClientFingerprintConfiguration (explicit random, session id, bogus ticket, legacy signature algorithms, permuted optional extensions) or from ExternalClientHello bytes. Failed handshakes are skipped. Non-trivial: TLS 1.2 ECDHE full handshake (carries a signature algorithm), a ClientHello that carries a ticket, or a resumed second handshake; distinct by case hash"
 
 func TestPropLog(t *testing.T) {
-	kit.Run(t, kit.Spec[Case]{ID: "C28", Name: "log", Rule: rule, Gen: gen, Check: check, Quick: 300, Thorough: 2500,
+	kit.Run(t, kit.Spec[Case]{ID: "C28", Name: "log", Rule: rule, Gen: gen, Check: check, Quick: 2000, Thorough: 30000,
 		Assumptions: []string{
 			"'populated' = true boolean / non-empty bytes or list / non-zero scalar / non-nil sub-structure; false, empty and nil log fields assert nothing",
 			"logged signature algorithms are compared by their JSON names: rsa or pkcs1v15 for PKCS#1, rsa or rsapss for PSS, ecdsa, dsa, ed25519; hash by name, 'intrinsic' or 'none' for Ed25519",
